@@ -180,9 +180,9 @@ func parentMain(prop, tier string, extraArgs []string) int {
 			}
 			raceSeen[rr.Key] = true
 			switch {
-			case rr.TouchesAny(ck.Anchors):
+			case rr.TopRepo && rr.TouchesAny(ck.Anchors):
 				total.Violate(prop+"/race/"+raceSite(rr), "data race on this property's mechanism:\n"+rr.Text, map[string]any{"race": rr.Text})
-			case rr.Repo:
+			case rr.TopRepo:
 				raceOther = append(raceOther, raceSite(rr))
 			default:
 				harnessBug = true
